@@ -1328,6 +1328,7 @@ impl Formatter {
         let mut is_min_set = false;
         let mut is_sec_set = false;
         let mut is_fraction_set = false;
+        let mut is_ampm_set = false;
 
         let mut dow: Option<WeekDay> = None;
         let mut doy: Option<u32> = None;
@@ -1566,11 +1567,12 @@ impl Formatter {
                 }
                 Field::AmPm(style) => {
                     if T::HAS_TIME && !T::IS_INTERVAL_DT {
-                        if dt.ampm.is_some() {
+                        if is_ampm_set {
                             return Err(Error::ParseError(
                                 "format code (am/pm) appears twice".try_to_string()?,
                             ));
                         }
+                        is_ampm_set = true;
                         if let Some(true) = is_hour24_set {
                             return Err(Error::ParseError(
                                 "'HH24' precludes use of meridian indicator".try_to_string()?,
